@@ -1060,6 +1060,12 @@ def run(chk):
     check_rw(chk, tu, macros)
     check_sequences(chk, tu, macros)
     chk.floor('R12.8', 2)
+    # R12.9: "for every sequence of path_open ... fd_close calls": the number path_open reports is the number of the slot the new
+    # descriptor was stored in, for every interleaving of opens and closes - the descriptor table evaluated on concrete insert / close
+    # sequences (rule shared with C13 R13.6): a number handed out denotes the inserted descriptor and no other live one
+    from . import c13 as _c13
+    _c13.check_descriptor_sequences(chk, tu, rule='R12.9')
+    chk.floor('R12.9', 1)
     check_seek(chk, tu, macros)
     check_errno_table(chk, tu, macros)
     check_filetype_table(chk, tu)
